@@ -8,6 +8,7 @@ real JSON session twice: one request per definition / top-level statement, and
 all of it as one request; the value answered for the last input must be the
 same in both and equal to the value Ref.tla computes."""
 import os
+import random
 import shutil
 
 from common import Check, ToolError, pmap, scratch_dir, tlc, tlc_ok, vacuity, write_ndjson
@@ -21,11 +22,41 @@ def pieces(prog):
     out = []
     if prog.get("uses_enum"):
         out.append("enum E1 { A1, B1(Int), C1 }\n")
+    if prog.get("uses_struct"):
+        out.append("struct P1 { x: Int, y: String }\n")
+    for m in prog.get("meths", []):
+        out.append(gen_prog.render({"funs": [], "meths": [m], "main": [], "uses_enum": False}))
     for f in prog["funs"]:
         out.append(gen_prog.render({"funs": [f], "main": [], "uses_enum": False}))
+    if prog["id"] % 3 == 0:
+        # definitions may arrive in any order (a method before the type it is defined on, a function before
+        # the functions it calls): nothing runs until the first statement
+        random.Random(prog["id"]).shuffle(out)
+        if prog["id"] % 2 == 0:
+            out.sort(key=lambda t: 0 if t.startswith("method") else 1)      # every method before every type
     for s in prog["main"]:
         out.append(gen_prog.render({"funs": [], "main": [s], "uses_enum": False}))
     return out
+
+
+def add_method_shapes(p):
+    """Methods on the program's own struct and enum, called from the top level; with the shuffled / reversed
+    order of definitions they reach the session before the types they are defined on."""
+    g = gen_prog.Gen(0)
+    g.nid = 700000
+    n = g.node
+    V = lambda x: n("var", n=x)
+    I = lambda v: n("int", v=v)
+    p["uses_struct"] = p["uses_enum"] = True
+    p["meths"] = p.get("meths", []) + [
+        {"n": "zpx", "recv": "P1", "this": "this", "tt": "P1", "ps": [], "pt": [], "rt": "Int", "line": 0,
+         "b": [n("paren", e=n("bin", op="*", l=n("dot", e=V("this"), f="x"), r=I(2)))]},
+        {"n": "zen", "recv": "E1", "this": "this", "tt": "E1", "ps": ["k"], "pt": ["Int"], "rt": "Int", "line": 0,
+         "b": [n("match", s=V("this"), arms=[{"v": "B1", "bind": "zv", "wild": False, "b": [n("paren", e=n("bin", op="+", l=V("zv"), r=V("k")))]},
+                                             {"v": "", "bind": "", "wild": True, "b": [V("k")]}])]}]
+    p["main"] = [n("show", e=n("mcall", m="zpx", recv=n("slit", n="P1", fs=[{"n": "x", "e": I(21)}, {"n": "y", "e": n("str", v="a")}]), args=[])),
+                 n("show", e=n("mcall", m="zen", recv=n("ctor", n="B1", args=[I(4)]), args=[I(1)])),
+                 n("show", e=n("mcall", m="zen", recv=n("ctor", n="C1", args=[]), args=[I(7)]))] + p["main"]
 
 
 def last_answer(reqs):
@@ -42,7 +73,15 @@ def run(tier, seed):
     ck = Check("C11", "model_checking", tier, seed)
     n = 60 if tier == "quick" else 600
     feats = {"session_safe": True, "unique_top": True}
-    progs, srcs = refrun.gen_programs(seed + 31, n, 5, err_rate=0.0, features=feats)
+    progs, srcs = refrun.gen_programs(seed + 31, n // 2, 5, err_rate=0.0, features=feats)
+    # the other half also uses structs, dictionaries, user-defined methods (on built-in types, the struct and the enum)
+    p2, s2 = refrun.gen_programs(seed + 31, n - n // 2, 5, err_rate=0.0, base=n // 2, features=dict(feats, ext=True, ext2=True))
+    for q in p2:
+        if q["id"] % 3 == 0:
+            add_method_shapes(q)
+            s2[q["id"]] = gen_prog.render(q)
+    progs += p2
+    srcs.update(s2)
     d = scratch_dir("c11")
     try:
         path = os.path.join(d, "p.ndjson")
@@ -90,7 +129,7 @@ def run(tier, seed):
         if problem:
             ck.fail(key, f"{key}: {problem}", {"cmd": "garden reftest-json-session s.json", "requests": inc_reqs, "single": one_req, "expected": e})
     vacuity(len(jobs) * 2 > n, f"only {len(jobs)} of {n} generated programs are error-free")
-    ck.assumptions += ["each top-level name is defined once (generator feature unique_top); functions and the enum are sent as their own inputs; every second program has a passing `test` item among its inputs"]
+    ck.assumptions += ["each top-level name is defined once (generator feature unique_top); functions, methods, the struct and the enum are sent as their own inputs, for every third program in a shuffled order; every second program has a passing `test` item among its inputs"]
     return ck.finish(rule="error-free generated programs, one request per definition / top-level statement vs one request for everything; non-trivial = programs with at least 4 inputs; compared: last answered value (both ways and with Ref.tla) and printed output")
 
 
